@@ -261,6 +261,13 @@ def vacuity_edges(view, Q, f, d):
                     edges.add((bi, zero[0]))
                 if op == "Ge":
                     edges.add((bi, t["otherwise"]))
+        # (a') the None edge of the Option returned by the keyed Store primitive: the item was absent, nothing changed
+        if d.kind in ("ANY", "REMOVED") and d.site_term is not None and disc[0] == "discr" and contains(disc, d.site_term):
+            for v, tb in t["targets"]:
+                if v == 0:
+                    edges.add((bi, tb))
+            if all(v == 1 for v, _ in t["targets"]):
+                edges.add((bi, t["otherwise"]))
         # (b) `match self.len() { 0 | 1 => .. }`: with at most one element left, any arrangement is ordered
         if disc[0] == "call" and disc[1].endswith("::len") and is_self_len(disc, Q):
             limit = 2 if d.kind == "REPL" else 1
@@ -579,6 +586,12 @@ def none_on_empty(view, Q, f):
             for y in walk(recv):
                 if y[0] == "call" and y[1].split("::")[-1] in ("find_min", "find_max", "first"):
                     return True, "None propagates from %s on the empty queue" % y[1].split("::")[-1]
+    # (a') `let i = self.find_min()?;`
+    for bb, t in f.calls():
+        if "func" in t and t["func"]["key"] == "std::ops::Try::branch":
+            a = strip(view.vp.operand(f, t["args"][0]))
+            if a[0] == "call" and a[1].split("::")[-1] in ("find_min", "find_max", "first"):
+                return True, "`%s()?` returns None on the empty queue" % a[1].split("::")[-1]
     # (b) explicit test of len()/size against 0 dominating the access, returning None
     vp = view.vp
     for bi in sorted(f.cfg.reach):
@@ -593,6 +606,9 @@ def none_on_empty(view, Q, f):
         if d[0] == "binop" and d[1] in ("Eq",) and is_len_term(d[2], Q) and const_int(strip(d[3])) == 0:
             if returns_none(view, f, t["otherwise"]):
                 return True, "`if size == 0` returns None"
+        if d[0] == "call" and d[1].split("::")[-1] == "is_empty" and d[1].startswith((Q, "store::Store")):
+            if returns_none(view, f, t["otherwise"]):
+                return True, "`if is_empty()` returns None"
     return False, "no recognised empty-queue guard yielding None (result %s)" % term_str(r)[:80]
 
 
